@@ -438,9 +438,27 @@ class mypy_build_assumed:
     modifies = []
 
 
-@contract(_GA + "_get_mypy_asts", props=["C15"], verify=False)
-class mypy_asts_assumed:
+def PKG_DIR(path):
+    return path.split("__init__.py")[0][:-1]
+
+
+@contract(_GA + "_get_mypy_asts", props=["C15", "C08"])
+class get_mypy_asts:
+    """Which of the syntax trees mypy built are analysed: the __init__ trees of registered package directories first,
+    then the trees of the files handed to mypy — nothing else mypy happened to load while following imports."""
+    params = {"build_result": "mypy_build.BuildResult", "files": "list[str]", "package_paths": "list[str]"}
+    returns = "list[mypy_nodes.MypyFile]"
     modifies = []
+    safety = False
+
+    def raises_ValueError(build_result, files, package_paths):
+        return any(build_result.graph[k].tree is None for k in build_result.graph)
+
+    @clause(mode="prove")      # callers do not need it; keeping it out of their hypotheses keeps their queries small
+    def ensures_selection(build_result, files, package_paths, result):
+        trees = [build_result.graph[k].tree for k in build_result.graph]
+        return result == [t for t in trees if t.path.endswith("__init__.py") and PKG_DIR(t.path) in package_paths] \
+            + [t for t in trees if not t.path.endswith("__init__.py") and t.path in files]
 
 
 @contract(_GA + "_get_aliases", props=["C15"], verify=False)
@@ -485,6 +503,7 @@ class get_api_filter:
     directories are the parents of the non-skipped __init__ files; the search starts at the single nearest package
     directory, else at the given root. The rest of the analysis (mypy build, AST walk) is assumed / bounded."""
     returns = "API"
+    log_calls = ["_get_mypy_asts"]
     params = {"root": "pathlib.Path", "docstring_style": "DocstringStyle", "is_test_run": "bool",
               "type_source_preference": "TypeSourcePreference", "type_source_warning": "TypeSourceWarning"}
     ghost = ["EXT"]
